@@ -23,8 +23,10 @@ let () =
     let id = hp.(0) in
     let spec = Array.of_list (split ':' hp.(1)) in
     let stack = spec.(1) and term = spec.(2) in
-    let take = (try Some (int_of_string (after "take=" hp.(2))) with _ -> None) in
-    let lim = (try let l = int_of_string (after "lim=" hp.(3)) in if l = 0 then None else Some l with _ -> None) in
+    (* an adapter applied twice lists both arguments (nearer the source first): the smaller take and the outer limit are in force *)
+    let ints s = List.map int_of_string (split ',' s) in
+    let take = (try Some (List.fold_left min max_int (ints (after "take=" hp.(2)))) with _ -> None) in
+    let lim = (try let l = List.hd (List.rev (ints (after "lim=" hp.(3)))) in if l = 0 then None else Some l with _ -> None) in
     let n = int_of_string (after "n=" hp.(4)) in
     let cfg = { has_map = contains stack "map"; has_enum = contains stack "enum"; enum_first = idx_of stack "enum" < idx_of stack "map";
                 c_take = (if contains stack "take" then (match take with Some t -> Some (nat_of_int t) | None -> None) else None);
